@@ -7,6 +7,11 @@ HOOK_COMMITS = subprocess.run(
     capture_output=True, text=True).stdout.strip().splitlines()
 
 CHECKS = {
+ "C12": dict(
+   text="Seeded deterministic simulation of the real CachingPlugin and ResponseBasedThrottlingPlugin over the real MemoryCache (its sleeper goroutines run on the fake clock): histories of store/lookup events over a small key space with unique bodies, clock targets at expiry -1 ns / exactly / +1 ns, re-stores right at expiry, 0.3 MB bodies against a 1 MB cache, concurrent groups interleaved at instrumented lock sites. Oracle: reference map body -> (key, stored_at, ttl): R1 replay only of a body stored for that key, R2 never after stored_at+ttl, R3 Retry-After reduced by elapsed time (relative) or unchanged (absolute), R4 replayable bytes <= configured cache size at quiescent probes. Sampling, not proof.",
+   design_ref="DESIGN.md section 4 C12",
+   note="Trusted: synctest fake clock; a miss is always legal; freshness includes the expiry instant itself; absolute retry-after has whole-second resolution; size judged on body bytes.",
+   technique="deterministic simulation: seeded store/lookup histories with expiry-instant clock targets and lock-site interleaving against a reference map with expiries"),
  "C09": dict(
    text="Seeded deterministic simulation of the real StrategyBasedThrottlingPlugin + RateLimitState on a fake clock: histories of requests at instants on the epoch grid (k*W exactly, +-1 ns, mid-window, several windows later), group allocation tables with fractional percentages and every default behaviour, concurrent bursts interleaved at instrumented lock sites. Oracle: reference pass counter per (remedy, group, grid window); R1 bound, R2 no spurious rejection (sequential), R3 configured status, isolation by construction of the per-key reference. Sampling, not proof.",
    design_ref="DESIGN.md section 4 C09",
